@@ -1594,7 +1594,7 @@ def check(run):
     rng = random.Random(run.seed * 7919 + 16)
     thorough = run.tier == 'thorough'
     common.prove(run, 'C16', ['model/C16Stream.vo', 'model/C16Res.vo', 'model/C16Closure.vo', 'model/C16Py.vo',
-                              'proofs/C16_gen_stream.vo'])
+                              'proofs/C16_gen_stream.vo', 'proofs/C16_gen_special.vo'])
     run.trusted += ['Coq 8.16.1 kernel (coqc); vm_compute for the cases.v evaluation',
                     'harness/pdfread.py (independent PDF reader, ISO 32000-1 Annex A operator table) and the judges of harness/p_c16.py (Python)',
                     'harness/impl_c16.py: decoding of Stream.stream items into model tokens; the call recorder (wraps the methods of weasyprint.pdf.stream.Stream in the worker process)',
@@ -1604,7 +1604,10 @@ def check(run):
                     'pydyf.Dictionary({..}) as the oracle "pydyf.Dictionary") and base/Py.v; Matrix(..) and @ in Stream.transform are linked to gen/GenMatrix.v',
                     'model/C16Py.v pydyf_call: what pydyf.Stream.push_state / pop_state / begin_text / end_text / set_font_size / end_marked_content / '
                     'begin_marked_content / set_matrix append to self.stream (pydyf is not in the repository) and what Stream.get_marked_content_tag '
-                    'answers (any str); methods are resolved by name']
+                    'answers (any str); methods are resolved by name',
+                    'tools/py2coq.py option vararg_last (the vararg of Stream.set_color_special as its last parameter, the tuple of the extra arguments; '
+                    'super().m(.., *operands) passes that tuple to the oracle) and proofs/C16_gen_special.v special_spec: what pydyf.Stream.set_color_special '
+                    'appends (one item); set_color_space is pydyf\'s own (one item)']
     run.assumptions += ['an exception swallowed around drawing calls is either rolled back (SVGImage.draw: checkpoint/rollback, theorems C16_*_with_failed_drawings, exercised by the monitor) or raised by a call that opens no bracket (suppress(PointError) around one shape in svg draw_node); the AST pass lists these two places',
                         'content of fonts, images and attachments is judged by decodability only (font tables: C16 partial)',
                         'reference interpreter: fill/stroke colour, alpha constants, font, CTM, text matrix, q/Q stack; dash, line width, clip, blend mode and soft mask are not cached by Stream and therefore not part of skip soundness']
